@@ -615,3 +615,99 @@ Proof.
   - vm_compute. repeat split.
 Qed.
 End C01_translated_roundtrip.
+
+(* ------------------------------------------------------------------------------------------ *)
+(* `:r file` IS THE C TEXT (coq/TrReadCmd.v): ex.c ec_read, translated by tools/c2clite.py (tools/c2clite.d/99zzzzz_read.list), run by
+   coq/CLite.v.  Oracle indices (CLiteExt.callx): ex_pathexpand, open, lbuf_rd (C01_tr_lbuf_rd is the theorem about it), close, ex_show,
+   snprintf -- one hypothesis `ext X_f [args] m = Ok (.., m')` per call reached, on the explicit memory and with the explicit arguments,
+   so each theorem says WHICH calls are made with WHAT; ex_region is the translated function (its run is a hypothesis, as in
+   Properties_C06.v; Properties_C05.v / C06.v prove it; an address other than "" and "%" has no run in CLite because ex_region reads the
+   caller's indeterminate `end` once -- design.d/C06.md); ex_lbuf / lbuf_len are translated and run.
+   For a file name in arg (arg[0] != 0), path = ex_pathexpand(arg, 1) not starting with '!', n = lbuf_len(xb) at entry:
+     C01_tr_ec_read_rejected  ex_region rejects and the address is not 0: 1 is returned, nothing is opened;
+     C01_tr_ec_read_noopen    open(path, O_RDONLY) < 0: ex_show("read failed"), 1; lbuf_rd and close are not called;
+     C01_tr_ec_read_rdfail    lbuf_rd(xb, fd, pos, pos) != 0: ex_show("read failed"), close(fd), 1;
+     C01_tr_ec_read_ok        lbuf_rd(xb, fd, pos, pos) == 0: close(fd), xrow = MAX(0, end + lbuf_len(xb) - n - 1), the message
+                              snprintf(msg, 128, "\"%s\"  [=%d]  [r]", path, lbuf_len(xb) - n), ex_show(msg), 0;
+   with pos = rd_pos = (lbuf_len(xb) ? end : 0): the text lands BEHIND the last addressed line, at 0 in an empty buffer, and the
+   descriptor is closed exactly once on every path behind a successful open. *)
+From NV Require TrReadCmd.
+Section C01_translated_read_cmd.
+Import CLite CLiteProps GenCFuncs CLiteExt TrLbufBase TrReadCmd.
+Local Open Scope Z_scope.
+
+Theorem C01_tr_ec_read_rejected : forall ext d fuel (m : mem) lb ab pp bl lo ao cmd txt n (ablk : block) c (mB mC : mem) bad beg en,
+  xb_at bl m -> len_at bl m n -> nth_error m ab = Some ablk -> nth_error ablk (Z.to_nat ao) = Some (VInt c) -> 0 <= ao ->
+  wrap I32 (wrap I8 c) <> 0 -> ext X_ex_pathexpand [VPtr ab ao; VInt 1] (er_mem m) = Ok (VPtr pp 0, mB) ->
+  callx ext cprog fuel (S (S d)) F_ex_region [VPtr lb lo; VPtr (S (length m)) 0; VPtr (S (S (length m))) 0] mB = Ok (VInt bad, mC) ->
+  nth_error mC (S (length m)) = Some [VInt beg] -> nth_error mC (S (S (length m))) = Some [VInt en] -> i32 beg -> i32 en ->
+  rejected bad beg en = true ->
+  callx ext cprog fuel (S (S (S d))) F_ec_read [VPtr lb lo; cmd; VPtr ab ao; txt] m = Ok (VInt 1, mC).
+Proof. exact tr_ec_read_rejected. Qed.
+Print Assumptions C01_tr_ec_read_rejected.
+
+Theorem C01_tr_ec_read_noopen : forall ext d fuel (m : mem) lb ab pp bl lo ao cmd txt n (ablk : block) c (mB mC : mem) bad beg en,
+  xb_at bl m -> len_at bl m n -> nth_error m ab = Some ablk -> nth_error ablk (Z.to_nat ao) = Some (VInt c) -> 0 <= ao ->
+  wrap I32 (wrap I8 c) <> 0 -> ext X_ex_pathexpand [VPtr ab ao; VInt 1] (er_mem m) = Ok (VPtr pp 0, mB) ->
+  callx ext cprog fuel (S (S d)) F_ex_region [VPtr lb lo; VPtr (S (length m)) 0; VPtr (S (S (length m))) 0] mB = Ok (VInt bad, mC) ->
+  nth_error mC (S (length m)) = Some [VInt beg] -> nth_error mC (S (S (length m))) = Some [VInt en] -> i32 beg -> i32 en ->
+  forall len (pblk : block) c' fd (mD : mem),
+  rejected bad beg en = false -> xb_at bl mC -> len_at bl mC len ->
+  nth_error mC pp = Some pblk -> nth_error pblk 0 = Some (VInt c') -> wrap I8 c' <> 33 ->
+  ext X_open [VPtr pp 0; VInt 0] mC = Ok (VInt fd, mD) ->
+  forall u mE, fd < 0 -> ext X_ex_show [VPtr G_rdfail 0] mD = Ok (u, mE) ->
+  callx ext cprog fuel (S (S (S d))) F_ec_read [VPtr lb lo; cmd; VPtr ab ao; txt] m = Ok (VInt 1, mE).
+Proof. exact tr_ec_read_noopen. Qed.
+Print Assumptions C01_tr_ec_read_noopen.
+
+Theorem C01_tr_ec_read_rdfail : forall ext d fuel (m : mem) lb ab pp bl lo ao cmd txt n (ablk : block) c (mB mC : mem) bad beg en,
+  xb_at bl m -> len_at bl m n -> nth_error m ab = Some ablk -> nth_error ablk (Z.to_nat ao) = Some (VInt c) -> 0 <= ao ->
+  wrap I32 (wrap I8 c) <> 0 -> ext X_ex_pathexpand [VPtr ab ao; VInt 1] (er_mem m) = Ok (VPtr pp 0, mB) ->
+  callx ext cprog fuel (S (S d)) F_ex_region [VPtr lb lo; VPtr (S (length m)) 0; VPtr (S (S (length m))) 0] mB = Ok (VInt bad, mC) ->
+  nth_error mC (S (length m)) = Some [VInt beg] -> nth_error mC (S (S (length m))) = Some [VInt en] -> i32 beg -> i32 en ->
+  forall len (pblk : block) c' fd (mD : mem),
+  rejected bad beg en = false -> xb_at bl mC -> len_at bl mC len ->
+  nth_error mC pp = Some pblk -> nth_error pblk 0 = Some (VInt c') -> wrap I8 c' <> 33 ->
+  ext X_open [VPtr pp 0; VInt 0] mC = Ok (VInt fd, mD) ->
+  forall r mE u mF u' mG, 0 <= fd -> xb_at bl mD -> r <> 0 ->
+  ext X_lbuf_rd [VPtr bl 0; VInt fd; VInt (rd_pos en len); VInt (rd_pos en len)] mD = Ok (VInt r, mE) ->
+  ext X_ex_show [VPtr G_rdfail 0] mE = Ok (u, mF) -> ext X_close [VInt fd] mF = Ok (u', mG) ->
+  callx ext cprog fuel (S (S (S d))) F_ec_read [VPtr lb lo; cmd; VPtr ab ao; txt] m = Ok (VInt 1, mG).
+Proof. exact tr_ec_read_rdfail. Qed.
+Print Assumptions C01_tr_ec_read_rdfail.
+
+Theorem C01_tr_ec_read_ok : forall ext d fuel (m : mem) lb ab pp bl lo ao cmd txt n (ablk : block) c (mB mC : mem) bad beg en,
+  xb_at bl m -> len_at bl m n -> nth_error m ab = Some ablk -> nth_error ablk (Z.to_nat ao) = Some (VInt c) -> 0 <= ao ->
+  wrap I32 (wrap I8 c) <> 0 -> ext X_ex_pathexpand [VPtr ab ao; VInt 1] (er_mem m) = Ok (VPtr pp 0, mB) ->
+  callx ext cprog fuel (S (S d)) F_ex_region [VPtr lb lo; VPtr (S (length m)) 0; VPtr (S (S (length m))) 0] mB = Ok (VInt bad, mC) ->
+  nth_error mC (S (length m)) = Some [VInt beg] -> nth_error mC (S (S (length m))) = Some [VInt en] -> i32 beg -> i32 en ->
+  forall len (pblk : block) c' fd (mD : mem),
+  rejected bad beg en = false -> xb_at bl mC -> len_at bl mC len ->
+  nth_error mC pp = Some pblk -> nth_error pblk 0 = Some (VInt c') -> wrap I8 c' <> 33 ->
+  ext X_open [VPtr pp 0; VInt 0] mC = Ok (VInt fd, mD) ->
+  forall mE u' mF len1 xr0 u3 mH u4 mI, 0 <= fd -> xb_at bl mD ->
+  ext X_lbuf_rd [VPtr bl 0; VInt fd; VInt (rd_pos en len); VInt (rd_pos en len)] mD = Ok (VInt 0, mE) ->
+  ext X_close [VInt fd] mE = Ok (u', mF) ->
+  nth_error mF (S (S (length m))) = Some [VInt en] -> xb_at bl mF -> len_at bl mF len1 -> cell_at mF G_xrow xr0 -> bl <> G_xrow ->
+  i32 n -> i32 (en + len1) -> i32 (en + len1 - n) -> i32 (en + len1 - n - 1) -> i32 (len1 - n) ->
+  ext X_snprintf [VPtr (length m) 0; VInt 128; VPtr G_rdfmt 0; VPtr pp 0; VInt (len1 - n)]
+      (upd mF G_xrow [VInt (Z.max 0 (en + len1 - n - 1))]) = Ok (u3, mH) ->
+  ext X_ex_show [VPtr (length m) 0] mH = Ok (u4, mI) ->
+  callx ext cprog fuel (S (S (S d))) F_ec_read [VPtr lb lo; cmd; VPtr ab ao; txt] m = Ok (VInt 0, mI).
+Proof. exact tr_ec_read_ok. Qed.
+Print Assumptions C01_tr_ec_read_ok.
+
+(* `:r f` RUNS, on the translated ec_read, ex_region, lbuf_rd and sbuf.c together (ex_ecread: a buffer of 2 lines, xrow = 0; the oracle
+   exsys copies the path, gives fd 3, logs ex_show's argument block behind an 8; lbuf_rd is the translated one under the read kernel and
+   the logging lbuf_edit): the value returned, xrow, the schedule left, the read log, the edit log *)
+Example C01_tr_ec_read_runs :
+  let s1 := [IoReadDefs.RChunk [97; 98; 10; 99]%N; IoReadDefs.RChunk [100; 10]%N; IoReadDefs.REof] in
+  let s2 := [IoReadDefs.RChunk [97; 98; 10; 99]%N; IoReadDefs.RErr] in
+  (* two short reads and EOF: lbuf_edit(xb, "ab\ncd\n", 1, 1) -- behind line 1 --, the message block (msg, the 7th block behind the globals) shown, 0 *)
+  ex_ecread s1 = Some (VInt 0, [VInt 0], [], TrRead.enc_rlog [TrRead.EvRead 3 1024 4; TrRead.EvRead 3 1024 2; TrRead.EvRead 3 1024 0],
+                       [VInt 9; VInt 1; VInt 1; VInt 97; VInt 98; VInt 10; VInt 99; VInt 100; VInt 10; VInt 8; VInt (Z.of_nat (ex_L + 6))]) /\
+  (* a failing read: no lbuf_edit, "read failed" shown, 1 *)
+  ex_ecread s2 = Some (VInt 1, [VInt 0], [], TrRead.enc_rlog [TrRead.EvRead 3 1024 4; TrRead.EvRead 3 1024 (-1)],
+                       [VInt 8; VInt (Z.of_nat G_rdfail)]).
+Proof. vm_compute. split; reflexivity. Qed.
+End C01_translated_read_cmd.
